@@ -150,6 +150,7 @@ def _real_bits(method, wv, bit):
     except DiameterTypeError:
         return ("raise", "DiameterTypeError")
     except Exception as e:
+        __import__('vf.h').h.reraise_if_harness(e)
         return ("raise", type(e).__name__)
     if method == "is_bit_set":
         return ("ret", bool(r))
